@@ -243,3 +243,73 @@ func init() {
 		return p
 	})
 }
+
+// ---- JSON codec tokens, protobuf leaves ----
+
+func (in *Interp) readAllFrom(fr *frame, r value) value {
+	iop := in.P.prog.ImportedPackage("io")
+	if iop == nil {
+		panic(unsupported("package io not in program"))
+	}
+	res := in.callFunction(fr, iop.Func("ReadAll"), []value{r}, nil).(tuple)
+	return res[0]
+}
+
+func init() {
+	reg("encoding/json.Marshal", func(fr *frame, fn *ssa.Function, args []value) value {
+		fr.in.P.noteModelName("encoding/json = codec tokens: Marshal(x) = tok(x), Unmarshal(tok(x)) = x, any other body is a syntax error")
+		return tuple{fr.in.jsonToken(args[0]), iface{}}
+	})
+	reg("encoding/json.MarshalIndent", func(fr *frame, fn *ssa.Function, args []value) value {
+		return tuple{fr.in.jsonToken(args[0]), iface{}}
+	})
+	reg("encoding/json.Unmarshal", func(fr *frame, fn *ssa.Function, args []value) value {
+		return fr.in.jsonDecode(args[0], args[1])
+	})
+	reg("(*encoding/json.Encoder).Encode", func(fr *frame, fn *ssa.Function, args []value) value {
+		in := fr.in
+		enc := (*args[0].(*value)).(structure)
+		et := deref(fn.Signature.Recv().Type())
+		w := enc[fieldIndex(et, "w")].(iface)
+		tok := in.jsonToken(args[1])
+		wm := in.lookupMethodByName(w.t, "Write")
+		res := in.callValue(fr, wm, []value{w.v, tok}, nil).(tuple)
+		return res[1]
+	})
+	reg("(*encoding/json.Decoder).Decode", func(fr *frame, fn *ssa.Function, args []value) value {
+		in := fr.in
+		dec := (*args[0].(*value)).(structure)
+		dt := deref(fn.Signature.Recv().Type())
+		r := dec[fieldIndex(dt, "r")]
+		data := in.readAllFrom(fr, r)
+		return in.jsonDecode(data, args[1])
+	})
+	reg("google.golang.org/protobuf/encoding/prototext.Format", func(fr *frame, fn *ssa.Function, args []value) value {
+		return "‹proto›"
+	})
+	reg("(google.golang.org/protobuf/encoding/prototext.MarshalOptions).Format", func(fr *frame, fn *ssa.Function, args []value) value {
+		return "‹proto›"
+	})
+	reg("google.golang.org/protobuf/proto.Clone", func(fr *frame, fn *ssa.Function, args []value) value {
+		return deepCopy(args[0])
+	})
+	reg("time.now", func(fr *frame, fn *ssa.Function, args []value) value {
+		in := fr.in
+		in.P.noteAssumption("unstubbed wall-clock reads (time.Now) return the constant instant 2023-11-14T22:13:20Z")
+		in.timeSeq++
+		return tuple{in.ts.BV(64, 1700000000), in.ts.BV(32, 0), in.ts.BV(64, uint64(2000+in.timeSeq))}
+	})
+}
+
+func (in *Interp) lookupMethodByName(t types.Type, name string) value {
+	if bi := in.P.engineMethod(t, name); bi != nil {
+		return bi
+	}
+	ms := in.P.prog.MethodSets.MethodSet(t)
+	for i := 0; i < ms.Len(); i++ {
+		if ms.At(i).Obj().Name() == name {
+			return in.P.prog.MethodValue(ms.At(i))
+		}
+	}
+	panic(unsupported("method " + name + " not found on " + t.String()))
+}
